@@ -225,6 +225,25 @@ Definition exec (ps : pstate_) (toks : list str) : pstate_ * str :=
         end
       | _ => (ps, err)
       end
+    else if tok_is c "reparse" then
+      match args with
+      | [td; ts; tb] =>
+        match slot_of td, slot_of ts with
+        | Some d, Some s =>
+          if (d =? s)%nat then (ps, err) else
+          let src := s_url (get_slot st s) in
+          let href := match src with Some u => serialize u false | None => [] end in
+          let base := match slot_of tb with Some b => Some (s_url (get_slot st b)) | None => None end in
+          let r := do_parse idna EU8 href base in
+          let sd := get_slot st d in
+          let sd' := match r with Some u => resync sd (Some u) | None => mk_slot None (s_has_sp sd) (s_sp sd) end in
+          let ps' := put ps d sd' in
+          let same := match src, r with Some a, Some b => url_eqb a b | _, _ => false end in
+          (ps', lit "reparse " ++ (if is_some r then lit "ok" else lit "fail") ++ lit " same=" ++ bit same ++ sp_ (st_str ps' d))
+        | _, _ => (ps, err)
+        end
+      | _ => (ps, err)
+      end
     else if tok_is c "equals" then
       match args with
       | [ta; tb; tx] =>
